@@ -282,18 +282,63 @@ def run(ctx):
             hi_, ri_ = ids_of(t, s)
             reqs.append(dict(p='C13', op='stats', s=hi_, t=ri_, c=[1, 1, 1]))
             ctx.violation('summary-raises:%s' % kind_class(s, t), 'ErrorsSummary.from_lists raised %r' % (e,), inp)
-    # aggregation = addition
+    # aggregation = addition (every field, the confusion table and the line-end statistics included), the
+    # summaries that are added up stay as they were, and aggregating aggregates equals aggregating the lines
     rng = ctx.rng
     homog = [(s, t) for k, s, t in sub_cases if kind_class(s, t) == 'homogeneous']
-    for _ in range(30 if ctx.quick() else 300):
-        grp = [rng.choice(homog) for _ in range(rng.randrange(0, 6))]
+    fields = ['nb_lines_summarized', 'ref_len', 'nb_errors', 'nb_subs', 'nb_inss', 'nb_dels']
+    efields = ['correct', 'pure_deletions', 'mixed_deletions', 'pure_insertions', 'mixed_insertions', 'pure_substitutions']
+
+    def snap(x):
+        conf = {}
+        for r_, cnt in x.confusions.items():
+            for h_, n_ in cnt.items():
+                if n_:
+                    conf[(repr(r_), repr(h_))] = py(n_)
+        return ([py(getattr(x, f)) for f in fields], conf, [py(getattr(x.ending_errors, f)) for f in efields])
+
+    def add_snaps(snaps):
+        nums = [sum(sn[0][i] for sn in snaps) for i in range(len(fields))]
+        conf = {}
+        for sn in snaps:
+            for k_, n_ in sn[1].items():
+                conf[k_] = conf.get(k_, 0) + n_
+        ends = [sum(sn[2][i] for sn in snaps) for i in range(len(efields))]
+        return (nums, conf, ends)
+
+    for _ in range(40 if ctx.quick() else 400):
+        grp = [rng.choice(homog) for _ in range(rng.randrange(0, 7))]
+        cut = rng.randrange(0, len(grp) + 1)
         try:
             sums = [es.ErrorsSummary.from_lists(list(s), list(t)) for s, t in grp]
+            before = [snap(x) for x in sums]
+            for (s, t), sn in zip(grp, before):
+                if sum(sn[1].values()) != sn[0][1] + sn[0][4]:
+                    ctx.violation('summary-confusions', "a line summary's confusion table does not hold ref_len + insertions pairs", dict(ref=s, hyp=t), sn[1])
             ag = es.ErrorsSummary.aggregate(sums)
-            fields = ['nb_lines_summarized', 'ref_len', 'nb_errors', 'nb_subs', 'nb_inss', 'nb_dels']
-            for f in fields:
-                if py(getattr(ag, f)) != sum(py(getattr(x, f)) for x in sums):
-                    ctx.violation('aggregate', 'ErrorsSummary.aggregate is not field-wise addition (%s)' % f, dict(group=grp))
+            want = add_snaps(before)
+            got = snap(ag)
+            if got[0] != want[0]:
+                ctx.violation('aggregate', 'ErrorsSummary.aggregate is not field-wise addition', dict(group=grp), got[0], want[0])
+            if got[1] != want[1]:
+                ctx.violation('aggregate-confusions', 'aggregated confusion table is not the sum of the per-line tables', dict(group=grp),
+                              sorted(map(str, got[1].items())), sorted(map(str, want[1].items())))
+            if got[2] != want[2]:
+                ctx.violation('aggregate-endings', 'aggregated line-end statistics are not the sum of the per-line ones', dict(group=grp), got[2], want[2])
+            if [snap(x) for x in sums] != before:
+                ctx.violation('aggregate-mutates', 'aggregate changed the summaries it added up', dict(group=grp))
+            # page totals, then a document total over the pages, and the flat total over the same lines
+            a1 = es.ErrorsSummary.aggregate(sums[:cut])
+            a2 = es.ErrorsSummary.aggregate(sums[cut:])
+            two = snap(es.ErrorsSummary.aggregate([a1, a2]))
+            flat = snap(es.ErrorsSummary.aggregate(sums))
+            if two != want or flat != want:
+                ctx.violation('aggregate-nested', 'aggregating page totals differs from aggregating the lines (or a second aggregation differs from the first)',
+                              dict(group=grp, cut=cut), [two[0], flat[0]], want[0])
+            if [snap(x) for x in sums] != before or snap(ag) != want:
+                ctx.violation('aggregate-mutates', 'a later aggregation changed earlier summaries', dict(group=grp, cut=cut))
+            if len(grp) >= 2:
+                ctx.nontriv('aggregate')
             ctx.evaluations += 1
         except Exception as e:
             ctx.violation('aggregate-raises', 'aggregate raised %r' % (e,), dict(group=grp))
